@@ -31,6 +31,10 @@ provenance  the accessor oracles (reference = direct indexing of the trajectory'
             trajectories from the real producers: simulate_script plain and with a cgmap (identity, lumping, lumping
             with a dropped cell) on fresh engine builds, save/load round trips and deepcopies of them, and
             RDTrajectory objects constructed with system != script.system.
+carriers    the same argument value carried by another numeric type: the merge flag as 1 / numpy bool / numpy
+            integer, keyword or positional; species / sample / linear cell index as numpy integers; (x,y,z) as
+            numpy arrays / tuples / lists / objects of numpy int8..int64 scalars on grids (4x5x7, 5x5x6, 8x8x8) whose
+            linear index does not fit the narrow dtypes.  A rejected carrier is counted; a wrong value is a violation.
 simulated   (small) the same accessor checks on trajectories produced by the Euler engine for a network
             without reactions and without diffusion (every sample equals the initial state).
 
@@ -862,6 +866,146 @@ def _check_provenance(case, out, stats):
                                                            tr.system.space.size())))
     _read_all(tr, nt, nsp, nc, space, first, out, stats, note + ":", suffix, prefix="provenance-")
 
+
+# ---- argument carriers: the same argument VALUE carried by another numeric type ----------------------
+
+FLAG_CARRIERS = ["True", "False", "1", "0", "np.True_", "np.False_", "np.bool_(True)", "np.int64(1)", "np.int64(0)"]
+FLAG_STYLES = ["keyword", "positional"]
+INDEX_DTYPES = ["int64", "int32"]
+INDEX_ROLES = ["species", "sample", "cell"]
+COORD_GRIDS = [[4, 5, 7], [5, 5, 6], [8, 8, 8]]
+COORD_CONTAINERS = ["ndarray", "tuple", "list", "object"]
+COORD_DTYPES = ["int8", "uint8", "int16", "int32", "int64"]
+
+
+def _flag(name):
+    import numpy as np
+    return {"True": True, "False": False, "1": 1, "0": 0, "np.True_": np.True_, "np.False_": np.False_,
+            "np.bool_(True)": np.bool_(True), "np.int64(1)": np.int64(1), "np.int64(0)": np.int64(0)}[name]
+
+
+def _check_flag_carrier(case, out, stats):
+    """get_trajectory(species, position, merge): a true flag gives the sum over cells (position ignored), a false
+    one the cell's own trajectory, whatever numeric type carries the truth value, by keyword or positionally."""
+    ns, nsp, nc, space = case["ns"], case["nsp"], case["nc"], case["space"]
+    tr, data, qunit = _mk_traj(ns, nsp, nc, space, 0)
+    name, style = case["flag"], case["style"]
+    flag = _flag(name)
+    truth = name in ("True", "1", "np.True_", "np.bool_(True)", "np.int64(1)")
+    ck = _Checker(out, stats, "carrier-", "flag-%s:%s" % (name, style))
+    kind = space[0]
+    for s in range(nsp):
+        for c in range(nc):
+            for sp in (LABELS[s], s):
+                c_ = "shape(ns=%d,nsp=%d,nc=%d) %s get_trajectory(%r, %d, %s%s)" % (
+                    ns, nsp, nc, space, sp, c, "merge=" if style == "keyword" else "", name)
+                stats["transitions"] += 1
+                try:
+                    got = tr.get_trajectory(sp, c, merge=flag) if style == "keyword" else tr.get_trajectory(sp, c, flag)
+                except Exception as e:
+                    if name in ("True", "False"):
+                        ck.fail("C17:get_trajectory_merged:unexpected-exception:%s" % kind, "%s raised %s: %s" % (c_, type(e).__name__, e))
+                    else:
+                        stats["carrier_rejected"] += 1          # a library may insist on a real bool
+                    continue
+                stats["carrier_accepted"] += 1
+                if truth:
+                    exp, scale = _merged(val, ns, nc, s)
+                    ck.vector("get_trajectory_merged", kind, got, exp, qunit, c_ + " [true flag: sum over cells]", scale)
+                else:
+                    ck.vector("get_trajectory", kind, got, [val(k, s, c) for k in range(ns)], qunit,
+                              c_ + " [false flag: the cell's own trajectory]")
+
+
+def _check_index_carrier(case, out, stats):
+    """species index / sample index / linear cell index given as a numpy integer instead of an int."""
+    import numpy as np
+    ns, nsp, nc, space = case["ns"], case["nsp"], case["nc"], case["space"]
+    tr, data, qunit = _mk_traj(ns, nsp, nc, space, 0)
+    T = getattr(np, case["dtype"])
+    role = case["role"]
+    ck = _Checker(out, stats, "carrier-", "%s-index-%s" % (role, case["dtype"]))
+    kind = space[0]
+
+    def attempt(site, c_, f, check):
+        stats["transitions"] += 1
+        try:
+            got = f()
+        except Exception:
+            stats["carrier_rejected"] += 1
+            return
+        stats["carrier_accepted"] += 1
+        check(got)
+    for k in range(ns):
+        for s in range(nsp):
+            for c in range(nc):
+                a_s = T(s) if role == "species" else s
+                a_k = T(k) if role == "sample" else k
+                a_c = T(c) if role == "cell" else c
+                d_ = "shape(ns=%d,nsp=%d,nc=%d) %s with the %s index as numpy.%s:" % (ns, nsp, nc, space, role, case["dtype"])
+                c1 = "%s get_trajectory_point(%d, %d, %d)" % (d_, s, k, c)
+                attempt("get_trajectory_point", c1, lambda: tr.get_trajectory_point(a_s, a_k, a_c),
+                        lambda got: ck.scalar("get_trajectory_point", kind, got, val(k, s, c), qunit, c1))
+                if role != "cell" and c == 0:
+                    c2 = "%s get_state(%d, %d)" % (d_, s, k)
+                    attempt("get_state", c2, lambda: tr.get_state(a_s, a_k),
+                            lambda got: ck.vector("get_state", kind, got, [val(k, s, cc) for cc in range(nc)], qunit, c2))
+                if role == "sample" and s == 0 and c == 0:
+                    c4 = "%s get_state(None, %d)" % (d_, k)
+                    attempt("get_state_whole", c4, lambda: tr.get_state(None, a_k),
+                            lambda got: ck.vector("get_state_whole", kind, got,
+                                                  [val(k, ss, cc) for ss in range(nsp) for cc in range(nc)], qunit, c4))
+                if role != "sample" and k == 0:
+                    c3 = "%s get_trajectory(%d, %d)" % (d_, s, c)
+                    attempt("get_trajectory", c3, lambda: tr.get_trajectory(a_s, a_c),
+                            lambda got: ck.vector("get_trajectory", kind, got, [val(kk, s, c) for kk in range(ns)], qunit, c3))
+                    exp, scale = _merged(val, ns, nc, s)
+                    attempt("get_trajectory_merged", c3, lambda: tr.get_trajectory(a_s, a_c, merge=True),
+                            lambda got: ck.vector("get_trajectory_merged", kind, got, exp, qunit, c3 + " merge=True", scale))
+
+
+def _check_coord_carrier(case, out, stats):
+    """(x,y,z) carried by a numpy array / tuple / list / object of numpy scalars of a narrow integer dtype, on grids
+    whose linear index does not fit the narrow dtypes although every coordinate does.  Reference: direct indexing."""
+    import numpy as np
+    w, h, d = case["grid"]
+    nc, nsp, ns = w * h * d, 2, 2
+    T = getattr(np, case["dtype"])
+    if max(w, h, d) - 1 > np.iinfo(T).max:
+        stats["carrier_coordinates_do_not_fit"] += 1
+        return
+    system = _mk_system(nsp, ["grid", w, h, d])
+    data = [float(3 * i + 1) for i in range(ns * nsp * nc)]          # distinct value per entry
+    tr = RDTrajectory(UnitArray(data, "molecule"), UnitArray([0.0, 1.0], "s"), system)
+    cont = case["container"]
+    ck = _Checker(out, stats, "carrier-", "%s-%s:%dx%dx%d" % (cont, case["dtype"], w, h, d))
+    for c in range(nc):
+        x, y, z = cell_xyz(c, w, h, d)
+        arr = np.array([x, y, z], dtype=T)
+        pos = arr if cont == "ndarray" else tuple(arr) if cont == "tuple" else list(arr) if cont == "list" else _Pos(arr[0], arr[1], arr[2])
+        shown = "%s of numpy.%s (%d,%d,%d)" % (cont, case["dtype"], x, y, z)
+        for s in range(nsp):
+            live = [float(tr.data.value[flat_index(k, s, c, nsp, nc)]) for k in range(ns)]
+            stats["transitions"] += 1
+            c_ = "grid %dx%dx%d: get_trajectory(%d, %s) [linear index %d]" % (w, h, d, s, shown, c)
+            try:
+                got = tr.get_trajectory(s, pos)
+            except Exception:
+                stats["carrier_rejected"] += 1
+            else:
+                stats["carrier_accepted"] += 1
+                ck.vector("get_trajectory", "grid", got, live, "molecule", c_)
+            for k in range(ns):
+                stats["transitions"] += 1
+                c_ = "grid %dx%dx%d: get_trajectory_point(%d, %d, %s) [linear index %d]" % (w, h, d, s, k, shown, c)
+                try:
+                    got = tr.get_trajectory_point(s, k, pos)
+                except Exception:
+                    stats["carrier_rejected"] += 1
+                else:
+                    stats["carrier_accepted"] += 1
+                    ck.scalar("get_trajectory_point", "grid", got, live[k], "molecule", c_)
+
 # ---- unknown species -------------------------------------------------------------------------------
 
 def _check_unknown(case, out, stats):
@@ -950,7 +1094,8 @@ _STAT_KEYS = ("transitions", "evaluations", "near_tie", "near_tie_not_lattice_an
               "simulated_shape_unexpected", "history_steps_refuting_a_cache_on_policy_and_number",
               "history_steps_refuting_a_cache_on_number", "modify_steps_reflected_by_direct_indexing",
               "modify_steps_NOT_reflected_by_direct_indexing", "provenance_producer_raised",
-              "provenance_save_load_raised", "provenance_unexpected_data_length", "provenance_trajectories_read")
+              "provenance_save_load_raised", "provenance_unexpected_data_length", "provenance_trajectories_read",
+              "carrier_accepted", "carrier_rejected", "carrier_coordinates_do_not_fit")
 
 
 def _new_stats():
@@ -981,6 +1126,12 @@ def check_case(case, stats=None):
             _check_lookup_modify(case, out, stats)
         elif sub == "provenance":
             _check_provenance(case, out, stats)
+        elif sub == "flag-carrier":
+            _check_flag_carrier(case, out, stats)
+        elif sub == "index-carrier":
+            _check_index_carrier(case, out, stats)
+        elif sub == "coord-carrier":
+            _check_coord_carrier(case, out, stats)
         elif sub == "unknown":
             _check_unknown(case, out, stats)
         elif sub == "simulated":
@@ -1202,6 +1353,40 @@ def _spaces(tier):
                "transposed grid) - x grids %s x {direct, save+load (data separate / inline), deepcopy} x %d first readers; "
                "every accessor against direct indexing on the caller's grid" % (pengines, pgrids, len(pfirst)),
                gen_prov, len(pgrids) * (len(PRODUCERS) * len(pengines) + len(CTOR_MISMATCH)) * len(POSTS) * len(pfirst), 3))
+
+    # ---- argument carriers
+    if tier == "thorough":
+        cshapes = [(sh, sp_) for sh in shapes() if sh[2] >= 2 for sp_ in arrangements(sh[2])]
+    else:
+        cshapes = [(sh, sp_) for sh in [(2, 2, 2), (3, 2, 3)] for sp_ in arrangements(sh[2])]
+
+    def gen_flag():
+        for ((ns, nsp, nc), space) in cshapes:
+            for flag in FLAG_CARRIERS:
+                for style in FLAG_STYLES:
+                    yield {"sub": "flag-carrier", "ns": ns, "nsp": nsp, "nc": nc, "space": space, "flag": flag, "style": style}
+    sp.append(("flag-carrier: merge flag of get_trajectory carried by %s x {keyword, positional} x %d (shape, arrangement) "
+               "with ncells >= 2; every species (label, index) x cell; true -> sum over cells, false -> the cell's trajectory"
+               % (FLAG_CARRIERS, len(cshapes)), gen_flag, len(cshapes) * len(FLAG_CARRIERS) * len(FLAG_STYLES), 24))
+
+    def gen_index():
+        for ((ns, nsp, nc), space) in cshapes:
+            for dt in INDEX_DTYPES:
+                for role in INDEX_ROLES:
+                    yield {"sub": "index-carrier", "ns": ns, "nsp": nsp, "nc": nc, "space": space, "dtype": dt, "role": role}
+    sp.append(("index-carrier: species index / sample index / linear cell index given as numpy %s x %d (shape, arrangement); "
+               "every triple through every accessor taking that argument" % (INDEX_DTYPES, len(cshapes)),
+               gen_index, len(cshapes) * len(INDEX_DTYPES) * len(INDEX_ROLES), 12))
+
+    def gen_coord():
+        for grid in COORD_GRIDS:
+            for cont in COORD_CONTAINERS:
+                for dt in COORD_DTYPES:
+                    yield {"sub": "coord-carrier", "grid": grid, "container": cont, "dtype": dt}
+    sp.append(("coord-carrier: grids %s (2 samples x 2 species, distinct value per entry); (x,y,z) of EVERY cell carried by "
+               "%s of numpy %s; get_trajectory_point / get_trajectory against direct indexing"
+               % (COORD_GRIDS, COORD_CONTAINERS, COORD_DTYPES),
+               gen_coord, len(COORD_GRIDS) * len(COORD_CONTAINERS) * len(COORD_DTYPES), 1))
 
     def gen_sim():
         for nsp in (1, 2, 3):
